@@ -319,6 +319,24 @@ func (r *Rev) RevokeRandom() (int, *big.Int, error) {
 	return i, w.E, err
 }
 
+// Retime re-signs the current accumulator with a later time stamp and publishes it in place of the old one
+// (an issuer confirming "no revocations since"). Index, value and event hash stay the same.
+func (r *Rev) Retime(delta int64) error {
+	r.mu.Lock()
+	defer r.mu.Unlock()
+	cur := len(r.Accs) - 1
+	acc := *r.Accs[cur]
+	r.clock += delta
+	acc.Time = r.clock
+	sacc, err := acc.Sign(r.Key.SK)
+	if err != nil {
+		return err
+	}
+	r.Accs[cur] = &acc
+	r.SAccs[cur] = sacc
+	return nil
+}
+
 // Resign returns a validly signed accumulator for index i with another time stamp.
 func (r *Rev) Resign(i int, t int64) (*revocation.SignedAccumulator, error) {
 	r.mu.Lock()
